@@ -178,6 +178,37 @@ def run(ctx):
     desc = nx.descendants(g, itr.qual) if itr.qual in g else set()
     ctx.ob("R-CALLERS", "C11.4", itr, "no checkpoint is written from inside the proposal training (between add_new_flow and save_weights)", not any(q.endswith(".checkpoint") for q in desc), "")
     ctx.floor("C11.4", 5)
+    # ---- C11.5 the sampler keeps checkpointing to the name the reader tries first ------------------------------------
+    # FlowSampler._resume_from_file hands `resume_file + ".old"` to <Sampler>.resume when the primary file is missing or
+    # torn; a sampler resumed that way must go on writing F (backup F.old), not F.old (backup F.old.old): otherwise the
+    # next kill in the rename window leaves only names the reader never tries and the run silently starts afresh.
+    # So: the checkpoint target is set where the output is configured, and nothing on the resume path sets it from the
+    # name of the file that was loaded.
+    rff = ctx.fn(tables.FS + "._resume_from_file")
+    fallback_ = [c_ for c_ in walk_no_nested(rff.node) if isinstance(c_, ast.Call) and isinstance(c_.func, ast.Attribute) and c_.func.attr == "resume"]
+    ctx.ob("R-FS", "C11.5", rff, "the reader passes the candidate name it is loading (primary, then `.old`) to <Sampler>.resume", len(fallback_) == 2 and any(isinstance(s_, ast.AugAssign) and src(s_.value) in ("'.old'", '".old"') for s_ in walk_no_nested(rff.node)), f"{[src(c_)[:60] for c_ in fallback_]}")
+    n_rf = 0
+    for f_ in prog.all_functions:
+        for s_ in walk_no_nested(f_.node):
+            if not (isinstance(s_, ast.Assign) and any(isinstance(t_, ast.Attribute) and t_.attr == "resume_file" for t_ in s_.targets)):
+                continue
+            n_rf += 1
+            on_resume = f_.name in ("resume", "resume_from_pickled_sampler", "_resume_from_file", "_resume_from_data", "check_resume", "__setstate__")
+            loaded_names = {a_.arg for a_ in f_.node.args.args if a_.arg in ("filename", "resume_file", "file", "path")} if on_resume else set()
+
+            def from_loaded(e_):
+                # the loaded file's own name (not merely its directory)
+                for x_ in ast.walk(e_):
+                    if isinstance(x_, ast.Name) and x_.id in loaded_names:
+                        par_ = next((c_ for c_ in ast.walk(e_) if isinstance(c_, ast.Call) and (call_name(c_) or "").endswith("dirname") and any(y_ is x_ for y_ in ast.walk(c_))), None)
+                        if par_ is None:
+                            return True
+                return False
+
+            bad_ = on_resume and from_loaded(s_.value)
+            ctx.ob("R-FS", "C11.5", f_, "the checkpoint target (resume_file) is not set from the name of the file a sampler was resumed from (which may be the `.old` backup)", not bad_, f"`{src(s_)[:70]}`" + (": after a resume through the `.old` fallback every later checkpoint goes to F.old / F.old.old, names the reader never tries" if bad_ else ""), node=s_)
+    ctx.require(n_rf >= 1, "no store to resume_file found (configure_output expected)")
+    ctx.floor("C11.5", 2)
     ctx.assumptions += [
         "rename within one directory is atomic and a completed close is durable (process death, not power loss)",
         "loading an absent file raises FileNotFoundError, a partially written one raises EOFError / UnpicklingError / RuntimeError (confirmed once on the pinned torch), a complete one succeeds",
